@@ -276,7 +276,7 @@ func tryNormalForms(id, tier, repo string, rep *Report, known *KnownFile) (*Repo
 	// who writes into what it was handed, who writes the registry, what a transaction writes) are the exception:
 	// for them the same code inlined into its caller is judged in the caller's role.
 	contextual := func(rule string) bool {
-		for _, p := range []string{"C05.OWNDATA", "C12.APPDATA", "C06.G", "C06.ONCE", "C19.", "C20.", "C14.W", "C17.TABLES", "C02.BINDARM", "C08.META", "C12.SHARED", "C16.REFPURE", "C13.REFS", "C11.PURE", "C09.FROZEN", "C01.SKIP"} {
+		for _, p := range []string{"C05.OWNDATA", "C12.APPDATA", "C06.G", "C06.ONCE", "C19.", "C20.", "C14.W", "C17.TABLES", "C02.BINDARM", "C02.CACHE", "C12.CACHE", "C08.META", "C12.SHARED", "C16.REFPURE", "C13.REFS", "C11.PURE", "C09.FROZEN", "C01.SKIP"} {
 			if strings.HasPrefix(rule, p) {
 				return true
 			}
@@ -300,6 +300,13 @@ func tryNormalForms(id, tier, repo string, rep *Report, known *KnownFile) (*Repo
 		}
 		if key != "" {
 			anch[key] = true
+		}
+		// ... and so is a complaint about what a helper named further on in the construct does ("string handed to
+		// printing helper #1 (writeDescText)"): with the helper inlined the complaint has nothing to attach to
+		for _, fn := range rep.c.allFns {
+			if fn.Parent() == nil && wordIn(o.Key, fn.Name()) {
+				anch[fn.Name()] = true
+			}
 		}
 	}
 	var text strings.Builder
@@ -614,6 +621,23 @@ func tryNormalForms(id, tier, repo string, rep *Report, known *KnownFile) (*Repo
 		return nil, nil
 	}
 	return nil, map[string]interface{}{"attempts": attempts}
+}
+
+// wordIn: w occurs in hay as a whole identifier.
+func wordIn(hay, w string) bool {
+	for i := 0; ; {
+		j := strings.Index(hay[i:], w)
+		if j < 0 {
+			return false
+		}
+		j += i
+		before := j == 0 || !isIdentByte(hay[j-1])
+		after := j+len(w) == len(hay) || !isIdentByte(hay[j+len(w)])
+		if before && after {
+			return true
+		}
+		i = j + 1
+	}
 }
 
 func isIdentByte(b byte) bool {
